@@ -1,5 +1,69 @@
-(* C09 - stub, theorems follow *)
-From RP Require Import Lib.Base Lib.Varint Model.Net Model.Client Spec.NetSpec Proofs.NetProofs.
-Theorem stub_probe_bytes : probe_bytes = [2; 0; 0; 0; 8; 1].
-Proof. exact probe_bytes_eq. Qed.
-Print Assumptions stub_probe_bytes.
+(* C09 - Submitted messages reach the panel intact, in order, in the negotiated encoding.
+   Model: Model/Client.v written / write_one (writer goroutine, connecttopanel.go:140-169) as a
+   function of the sequence [subs] in which the goroutine RECEIVES submissions from the
+   channel.  proto.Marshal and InboundMessagesToRawPanelASCIIstrings are arbitrary functions
+   [marshal], [enc_in].  Incoming traffic does not occur in the writer at all (reader and
+   writer share only the socket) - the formal content of "whatever traffic arrives".
+   With several submitting goroutines the receive sequence is an interleaving of their
+   sequences that keeps each one's order: that is the channel's semantics (trusted, DESIGN
+   section 4), exercised by the tie with 4 goroutines and judged by Spec.NetSpec.merge_ok.
+   PARTIAL (DESIGN section 5): conn.Write atomicity/completeness and channel behaviour are the
+   runtime's; c09_spec_accepts_single_partial: the proof that the spec predicate accepts the
+   model's output is given for one submitter only (for several, acceptance of every
+   interleaving by the backtracking matcher is validated by the tie, not proved). *)
+From RP Require Import Lib.Base Lib.Varint Lib.Strings Model.Net Model.Client Spec.NetSpec
+     Proofs.NetWriterProofs.
+
+(* binary: exactly one length-prefixed frame per message, payload = marshal(message), all
+   messages of all received lists, in order; nothing else on the wire *)
+Theorem c09_wire_bin : forall (Msg : Type) (marshal : Msg -> bytes) (enc_in : list Msg -> list bytes)
+    (subs : list (list Msg)) fuel,
+  Forall (fun m => zlen (marshal m) < 4294967296) (concat subs) ->
+  (length (concat subs) < fuel)%nat ->
+  parse_frames fuel (written Msg marshal enc_in true subs) = (map marshal (concat subs), []).
+Proof. exact wire_bin. Qed.
+Print Assumptions c09_wire_bin.
+
+(* ASCII: the converter's lines, each followed by exactly one line feed, in order *)
+Theorem c09_wire_ascii : forall (Msg : Type) (marshal : Msg -> bytes) (enc_in : list Msg -> list bytes)
+    (subs : list (list Msg)),
+  written Msg marshal enc_in false subs = concat (map (fun l => l ++ [10]) (concat (map enc_in subs))).
+Proof. exact wire_ascii. Qed.
+Print Assumptions c09_wire_ascii.
+
+Theorem c09_wire_ascii_lines : forall (Msg : Type) (marshal : Msg -> bytes) (enc_in : list Msg -> list bytes)
+    (subs : list (list Msg)),
+  Forall (fun l => no_lf l = true) (concat (map enc_in subs)) ->
+  split_lf (written Msg marshal enc_in false subs) = concat (map enc_in subs) ++ [[]].
+Proof. exact wire_ascii_lines. Qed.
+Print Assumptions c09_wire_ascii_lines.
+
+(* bytes of different submissions are never interleaved: each submission is one contiguous
+   block, placed after all submissions received before it and before all received after it *)
+Theorem c09_merge_atomic : forall (Msg : Type) (marshal : Msg -> bytes) (enc_in : list Msg -> list bytes)
+    b (before after : list (list Msg)) sub,
+  written Msg marshal enc_in b (before ++ sub :: after) =
+  written Msg marshal enc_in b before ++ write_one Msg marshal enc_in b sub ++ written Msg marshal enc_in b after.
+Proof. exact written_blocks. Qed.
+Print Assumptions c09_merge_atomic.
+
+Theorem c09_empty_list_binary : forall (Msg : Type) (marshal : Msg -> bytes) (enc_in : list Msg -> list bytes),
+  write_one Msg marshal enc_in true [] = [].
+Proof. exact empty_submission_bin. Qed.
+Print Assumptions c09_empty_list_binary.
+
+(* the oracle (merge_ok) accepts the unit sequence of a single submitter's submissions,
+   empty submissions included *)
+Theorem c09_spec_accepts_single_partial : forall fuel (s : list (list bytes)), (length (drop_empty s) < fuel)%nat ->
+  merge_ok fuel (concat s) [s] = true.
+Proof. exact merge_ok_single. Qed.
+Print Assumptions c09_spec_accepts_single_partial.
+
+(* non-vacuity *)
+Example c09_ex_bin :
+  written Z (fun m => [8; m]) (fun _ => []) true [[1; 2]; []; [3]] = [2;0;0;0;8;1; 2;0;0;0;8;2; 2;0;0;0;8;3] /\
+  parse_frames 5 (written Z (fun m => [8; m]) (fun _ => []) true [[1; 2]; []; [3]]) = ([[8;1]; [8;2]; [8;3]], []).
+Proof. split; reflexivity. Qed.
+Example c09_ex_merge : merge_ok 5 [[1]; [2]; [9]; [3]] [[[[1]; [2]]; [[3]]]; [[[9]]]] = true /\
+                       merge_ok 5 [[1]; [9]; [2]; [3]] [[[[1]; [2]]; [[3]]]; [[[9]]]] = false.
+Proof. split; reflexivity. Qed.
